@@ -329,7 +329,8 @@ InvokeReturnDo(s) ==
 \* limit reaches the runtime cut at the limit (label -k)
 NewInv(c, pl) == [c |-> c, pl |-> pl, id |-> 0, t0 |-> 0, m |-> "start", r |-> "off", f |-> "off", i |-> "off",
                   out |-> "", relRes |-> "", body |-> NoBody, derr |-> NoBody,
-                  got |-> FALSE]      \* a body (possibly empty) has been written to this caller's reply stream
+                  got |-> FALSE,      \* a body (possibly empty) has been written to this caller's reply stream
+                  once |-> "free"]    \* resetOnce of this Server.Invoke call: "free" | "busy" (a reset is running) | "done"
 
 WithInv(s, k, rec) == [s EXCEPT !.iv = [x \in DOMAIN s.iv \cup {k} |-> IF x = k THEN rec ELSE s.iv[x]]]
 
@@ -432,15 +433,21 @@ RelAwaitDo(s, k) ==
     ELSE IF s.srv.done = "ok"
     THEN [Release([s EXCEPT !.srv.done = "empty", !.srv.phase = "idle"]) EXCEPT !.iv[k].r = "sendok"]
     ELSE IF s.srv.done = "fail"
-    THEN [s EXCEPT !.srv.done = "empty", !.srv.phase = "idle", !.iv[k].r = "rst",
-                   !.rs = [x \in DOMAIN s.rs \cup {<<k, "F">>} |->
-                              IF x = <<k, "F">> THEN [pc |-> "r0", reason |-> "ReleaseFail", dl |-> 0] ELSE s.rs[x]]]
+    THEN IF s.iv[k].once = "free" \/ "double-reset" \in AsFound
+         THEN [s EXCEPT !.srv.done = "empty", !.srv.phase = "idle", !.iv[k].r = "rst", !.iv[k].once = "busy",
+                        !.rs = [x \in DOMAIN s.rs \cup {<<k, "F">>} |->
+                                   IF x = <<k, "F">> THEN [pc |-> "r0", reason |-> "ReleaseFail", dl |-> 0] ELSE s.rs[x]]]
+         \* the timeout is already resetting this invocation (resetOnce, repair of F-C10-3): wait until it is done
+         ELSE [s EXCEPT !.srv.done = "empty", !.srv.phase = "idle", !.iv[k].r = "oncew"]
     ELSE [s EXCEPT !.srv.phase = "idle", !.iv[k].r = "sendok"]     \* ErrReleaseReservationDone is not an error
 
 \* Reset returned to the release goroutine: Release, then the error goes to main
 RelAfterResetEn(s, k) == s.iv[k].r = "rst" /\ s.rdone > 0 /\ Free(s, "server.resetBeforeRelease")
 RelAfterResetDo(s, k) ==
-    [WrapperRelease([s EXCEPT !.rdone = @ - 1]) EXCEPT !.iv[k].r = "senderr", !.iv[k].relRes = "InvokeDoneFailed"]
+    [WrapperRelease([s EXCEPT !.rdone = @ - 1]) EXCEPT !.iv[k].r = "senderr", !.iv[k].relRes = "InvokeDoneFailed", !.iv[k].once = "done"]
+
+RelOnceWaitEn(s, k) == s.iv[k].r = "oncew" /\ s.iv[k].once = "done"
+RelOnceWaitDo(s, k) == [s EXCEPT !.iv[k].r = "senderr", !.iv[k].relRes = "InvokeDoneFailed"]
 
 \* main receives from releaseSuccessChan / releaseErrChan
 MainGotResultEn(s, k) == s.iv[k].m = "sel" /\ s.iv[k].r \in {"sendok", "senderr"}
@@ -452,13 +459,19 @@ MainGotResultDo(s, k) ==
 \* the timer fires: Reset("Timeout", 2000)
 MainTimeoutEn(s, k) == s.iv[k].m = "sel"
 MainTimeoutDo(s, k) ==
-    [s EXCEPT !.iv[k].m = "rst",
-              !.rs = [x \in DOMAIN s.rs \cup {<<k, "T">>} |->
-                         IF x = <<k, "T">> THEN [pc |-> "r0", reason |-> "Timeout", dl |-> s.iv[k].t0 + s.timeoutMs + 2000]
-                         ELSE s.rs[x]]]
+    IF s.iv[k].once = "free" \/ "double-reset" \in AsFound
+    THEN [s EXCEPT !.iv[k].m = "rst", !.iv[k].once = "busy",
+                   !.rs = [x \in DOMAIN s.rs \cup {<<k, "T">>} |->
+                              IF x = <<k, "T">> THEN [pc |-> "r0", reason |-> "Timeout", dl |-> s.iv[k].t0 + s.timeoutMs + 2000]
+                              ELSE s.rs[x]]]
+    \* the release goroutine is already resetting this invocation (resetOnce): wait until it is done
+    ELSE [s EXCEPT !.iv[k].m = "oncew"]
 
 MainAfterResetEn(s, k) == s.iv[k].m = "rst" /\ s.rdone > 0 /\ Free(s, "server.resetBeforeRelease")
-MainAfterResetDo(s, k) == [WrapperRelease([s EXCEPT !.rdone = @ - 1]) EXCEPT !.iv[k].m = "sel2"]
+MainAfterResetDo(s, k) == [WrapperRelease([s EXCEPT !.rdone = @ - 1]) EXCEPT !.iv[k].m = "sel2", !.iv[k].once = "done"]
+
+MainOnceWaitEn(s, k) == s.iv[k].m = "oncew" /\ s.iv[k].once = "done"
+MainOnceWaitDo(s, k) == [s EXCEPT !.iv[k].m = "sel2"]
 
 MainAfterTimeoutEn(s, k) == s.iv[k].m = "sel2" /\ s.iv[k].r \in {"sendok", "senderr"}
 MainAfterTimeoutDo(s, k) == [s EXCEPT !.iv[k].m = "ret", !.iv[k].out = "InvokeTimeout", !.iv[k].r = "off"]
@@ -941,7 +954,7 @@ Urgent(s) ==
          \/ MainBeginEn(s, k) \/ RelReserveEn(s, k) \/ FioAwaitInitEn(s, k) \/ FioInitFailedEn(s, k) \/ FioShutdownEn(s, k)
          \/ FioShutdownDoneEn(s, k) \/ FioFastInvokeEn(s, k) \/ FiiStartEn(s, k) \/ FiiDefaultErrorEn(s, k)
          \/ FiiSendDoneEn(s, k) \/ RelAwaitEn(s, k) \/ RelAfterResetEn(s, k) \/ MainGotResultEn(s, k)
-         \/ MainAfterResetEn(s, k) \/ MainAfterTimeoutEn(s, k)
+         \/ MainAfterResetEn(s, k) \/ MainAfterTimeoutEn(s, k) \/ MainOnceWaitEn(s, k) \/ RelOnceWaitEn(s, k)
     \/ \E x \in DOMAIN s.rs :
          \/ ResetCancelEn(s, x) \/ ResetLockEn(s, x) \/ ResetFinishEn(s, x) \/ ResetClearEn(s, x) \/ ResetServerClearEn(s, x)
     \/ DriverShutdownLockEn(s) \/ DriverShutdownRetEn(s) \/ DriverResetRetEn(s) \/ RestoreAwaitEn(s)
